@@ -131,7 +131,7 @@ def main():
     common = open(os.path.join(HERE, "lexer_common.rs.in")).read()
     body = [common]
     # default arm: nrest symbolic bytes behind the concrete first character
-    for nrest, tier, timeout, mem in [(2, "quick", 1500, 6), (3, "thorough", 2400, 10), (4, "thorough", 3600, 16)]:
+    for nrest, tier, timeout, mem in [(2, "quick", 1500, 6), (3, "thorough", 2400, 10), (4, "thorough", 3600, 30)]:
         for gname, firsts in FIRST_GROUPS:
             body.append(default_harness(gname, firsts, nrest, 1, tier, timeout, mem, 0))
         for gname, firsts in TEMPLATE_FIRSTS:
@@ -141,7 +141,7 @@ def main():
     body.append(default_harness("p0a", [b" ", b"\n", b"a"], 2, 0, "quick", 900, 6, 0, "_p0"))
     body.append(default_harness("p0b", [b"#", b"0", b"\xc3\xa9"], 2, 0, "thorough", 1800, 10, 0, "_p0"))
     # string modes: fully symbolic window
-    for n, tier, timeout, mem in [(2, "quick", 1500, 6), (3, "quick", 1500, 6), (4, "thorough", 2400, 16)]:
+    for n, tier, timeout, mem in [(2, "quick", 1500, 6), (3, "quick", 1500, 6), (4, "thorough", 2400, 20)]:
         for mode in ("literal", "rawstart", "format"):
             if n <= 2:
                 body.append(mode_harness(mode, shapes(n) + shapes(1), n, 1, tier, timeout, mem))
